@@ -47,104 +47,116 @@ func c12Addrs(e expr.Expr, env irsem.Env) []string {
 	return out
 }
 
+var colC12 *ev.Collector
+
+// propC12 is the property of C12; it is shared by the rapid test and the native
+// fuzz target.
+func propC12(t *rapid.T) {
+	col := colC12
+	col.Case()
+	cfg := irsem.GenCfg{MaxDepth: rapid.IntRange(1, 4).Draw(t, "depth"), GadgetProb: 50}
+	if rapid.IntRange(0, 2).Draw(t, "small") == 0 {
+		cfg.SmallWidths = true
+	}
+	e := irsem.GenExpr(t, cfg)
+	if rapid.IntRange(0, 2).Draw(t, "topmem") == 0 {
+		// force the interesting shape: memory load whose address is a gadget
+		aw := irsem.GenWidth(t, cfg, "aw")
+		lw := irsem.GenWidth(t, cfg, "lw")
+		e = expr.NewMemLoad(irsem.MemKeys[0], expr.NewBinary(expr.Add, e, expr.Zero, aw), lw)
+	}
+	before := irsem.String(e)
+	seeds := []uint64{drawEnvSeed(t, "env1"), drawEnvSeed(t, "env2")}
+
+	// SetWidth
+	w := irsem.GenWidth(t, irsem.GenCfg{}, "target")
+	var sw expr.Expr
+	if msg := catch(func() { sw = exprtransform.SetWidth(e, w) }); msg != "" {
+		t.Fatalf("SetWidth(%s, %d): %s", before, w, msg)
+	}
+	if sw.Width() != w {
+		t.Fatalf("SetWidth(%s, %d) has width %d", before, w, sw.Width())
+	}
+	for _, s := range seeds {
+		env := irsem.NewHashEnv(s)
+		want := irsem.Fit(irsem.Eval(e, env), w)
+		if got := irsem.Eval(sw, env); got.Cmp(want) != 0 {
+			t.Fatalf("SetWidth(%s, %d) = %s evaluates to %x, want %x (env seed %d)", before, w, irsem.String(sw), got, want, s)
+		}
+	}
+
+	// PurgeWidthGadgets
+	var p expr.Expr
+	if msg := catch(func() { p = exprtransform.PurgeWidthGadgets(e) }); msg != "" {
+		t.Fatalf("PurgeWidthGadgets(%s): %s", before, msg)
+	}
+	if irsem.String(e) != before {
+		t.Fatalf("PurgeWidthGadgets modified its argument")
+	}
+	if p.Width() != e.Width() {
+		t.Fatalf("PurgeWidthGadgets(%s) = %s changes width", before, irsem.String(p))
+	}
+	for _, s := range seeds {
+		env := irsem.NewHashEnv(s)
+		want, got := irsem.Eval(e, env), irsem.Eval(p, env)
+		if want.Cmp(got) != 0 {
+			t.Fatalf("PurgeWidthGadgets changes the value (env seed %d):\n  e = %s = %x\n  p = %s = %x",
+				s, before, want, irsem.String(p), got)
+		}
+		wa, ga := c12Addrs(e, env), c12Addrs(p, env)
+		if len(wa) != len(ga) {
+			t.Fatalf("PurgeWidthGadgets changes the number of memory loads: %s -> %s", before, irsem.String(p))
+		}
+		for i := range wa {
+			if wa[i] != ga[i] {
+				t.Fatalf("PurgeWidthGadgets changes the address of memory load %d from %s to %s (env seed %d):\n  e = %s\n  p = %s",
+					i, wa[i], ga[i], s, before, irsem.String(p))
+			}
+		}
+	}
+	// Purging may only remove nodes. (Which nodes count as gadgets can change while
+	// purging - Add(x, gadget(0)) becomes a gadget itself - so only the size is compared;
+	// the statement demands value preservation, checked above.)
+	if irsem.Size(p) > irsem.Size(e) {
+		t.Fatalf("PurgeWidthGadgets grew the expression: %s -> %s", before, irsem.String(p))
+	}
+
+	g1, g2 := c12CountGadgets(e), c12CountGadgets(p)
+	under := c12GadgetUnderMemAddr(e)
+	switch {
+	case under:
+		col.Class("gadget-under-mem-addr")
+		col.Nontrivial(before)
+	case g2 < g1 && g2 > 0:
+		col.Class("some-removed-some-kept")
+		col.Nontrivial(before)
+	case g2 < g1:
+		col.Class("all-removed")
+	case g1 > 0:
+		col.Class("none-removed")
+	default:
+		col.Class("no-gadgets")
+	}
+	if col.WantSample() {
+		col.Sample(map[string]string{"expr": before, "purged": irsem.String(p), "setwidth_target": widthStr(w)})
+	} else {
+		col.SkipSample()
+	}
+}
+
 func TestC12(t *testing.T) {
-	col := ev.New("C12", "rapid: expression trees (depth <= 4) with high width-gadget density (every generated "+
+	colC12 = ev.New("C12", "rapid: expression trees (depth <= 4) with high width-gadget density (every generated "+
 		"sub-expression wrapped in 1-3 gadgets of random widths with probability 1/2, incl. gadgets directly under "+
 		"memory-load addresses, narrowing-then-widening chains and gadget look-alikes) x target widths 1..255; "+
 		"oracle = math/big evaluator: SetWidth(e,w) == fit(e,w); PurgeWidthGadgets(e) == e (value, width, every "+
 		"memory-load address at its own width, node count non-increasing). non-trivial = >=1 gadget removed and >=1 kept, or a gadget directly under a "+
 		"memory-load address; distinct by tree rendering")
+	col := colC12
 	defer col.Flush()
 
-	rapid.Check(t, func(t *rapid.T) {
-		col.Case()
-		cfg := irsem.GenCfg{MaxDepth: rapid.IntRange(1, 4).Draw(t, "depth"), GadgetProb: 50}
-		if rapid.IntRange(0, 2).Draw(t, "small") == 0 {
-			cfg.SmallWidths = true
-		}
-		e := irsem.GenExpr(t, cfg)
-		if rapid.IntRange(0, 2).Draw(t, "topmem") == 0 {
-			// force the interesting shape: memory load whose address is a gadget
-			aw := irsem.GenWidth(t, cfg, "aw")
-			lw := irsem.GenWidth(t, cfg, "lw")
-			e = expr.NewMemLoad(irsem.MemKeys[0], expr.NewBinary(expr.Add, e, expr.Zero, aw), lw)
-		}
-		before := irsem.String(e)
-		seeds := []uint64{drawEnvSeed(t, "env1"), drawEnvSeed(t, "env2")}
-
-		// SetWidth
-		w := irsem.GenWidth(t, irsem.GenCfg{}, "target")
-		var sw expr.Expr
-		if msg := catch(func() { sw = exprtransform.SetWidth(e, w) }); msg != "" {
-			t.Fatalf("SetWidth(%s, %d): %s", before, w, msg)
-		}
-		if sw.Width() != w {
-			t.Fatalf("SetWidth(%s, %d) has width %d", before, w, sw.Width())
-		}
-		for _, s := range seeds {
-			env := irsem.NewHashEnv(s)
-			want := irsem.Fit(irsem.Eval(e, env), w)
-			if got := irsem.Eval(sw, env); got.Cmp(want) != 0 {
-				t.Fatalf("SetWidth(%s, %d) = %s evaluates to %x, want %x (env seed %d)", before, w, irsem.String(sw), got, want, s)
-			}
-		}
-
-		// PurgeWidthGadgets
-		var p expr.Expr
-		if msg := catch(func() { p = exprtransform.PurgeWidthGadgets(e) }); msg != "" {
-			t.Fatalf("PurgeWidthGadgets(%s): %s", before, msg)
-		}
-		if irsem.String(e) != before {
-			t.Fatalf("PurgeWidthGadgets modified its argument")
-		}
-		if p.Width() != e.Width() {
-			t.Fatalf("PurgeWidthGadgets(%s) = %s changes width", before, irsem.String(p))
-		}
-		for _, s := range seeds {
-			env := irsem.NewHashEnv(s)
-			want, got := irsem.Eval(e, env), irsem.Eval(p, env)
-			if want.Cmp(got) != 0 {
-				t.Fatalf("PurgeWidthGadgets changes the value (env seed %d):\n  e = %s = %x\n  p = %s = %x",
-					s, before, want, irsem.String(p), got)
-			}
-			wa, ga := c12Addrs(e, env), c12Addrs(p, env)
-			if len(wa) != len(ga) {
-				t.Fatalf("PurgeWidthGadgets changes the number of memory loads: %s -> %s", before, irsem.String(p))
-			}
-			for i := range wa {
-				if wa[i] != ga[i] {
-					t.Fatalf("PurgeWidthGadgets changes the address of memory load %d from %s to %s (env seed %d):\n  e = %s\n  p = %s",
-						i, wa[i], ga[i], s, before, irsem.String(p))
-				}
-			}
-		}
-		// Purging may only remove nodes. (Which nodes count as gadgets can change while
-		// purging - Add(x, gadget(0)) becomes a gadget itself - so only the size is compared;
-		// the statement demands value preservation, checked above.)
-		if irsem.Size(p) > irsem.Size(e) {
-			t.Fatalf("PurgeWidthGadgets grew the expression: %s -> %s", before, irsem.String(p))
-		}
-
-		g1, g2 := c12CountGadgets(e), c12CountGadgets(p)
-		under := c12GadgetUnderMemAddr(e)
-		switch {
-		case under:
-			col.Class("gadget-under-mem-addr")
-			col.Nontrivial(before)
-		case g2 < g1 && g2 > 0:
-			col.Class("some-removed-some-kept")
-			col.Nontrivial(before)
-		case g2 < g1:
-			col.Class("all-removed")
-		case g1 > 0:
-			col.Class("none-removed")
-		default:
-			col.Class("no-gadgets")
-		}
-		if col.WantSample() {
-			col.Sample(map[string]string{"expr": before, "purged": irsem.String(p), "setwidth_target": widthStr(w)})
-		} else {
-			col.SkipSample()
-		}
-	})
+	rapid.Check(t, propC12)
 }
+
+// FuzzC12 drives the same property with Go's coverage-guided fuzzer (thorough
+// tier only; see DESIGN.md).
+func FuzzC12(f *testing.F) { f.Fuzz(rapid.MakeFuzz(propC12)) }
